@@ -354,6 +354,11 @@ func (g *igen) directedString(m map[string]any) any {
 	if _, ok := m["pattern"]; ok && r.IntN(2) == 0 {
 		return Pick(r, []string{"a", "b", "ab", "ba", "", "0", "a0", "é", "aa", "bb", "abab"})
 	}
+	if r.IntN(5) == 0 {
+		// a string of one kind of wide code point only: byte length, UTF-16 length and code-point length all differ
+		u := Pick(r, []string{"😀", "𝒳", "é", "日", "\U0010FFFF", "ß"})
+		return strings.Repeat(u, target)
+	}
 	var sb strings.Builder
 	for i := 0; i < target; i++ {
 		u := Pick(r, units)
